@@ -107,6 +107,19 @@ theorem gen_tfs {K : Type} [Field K] (f : K → K) (pi fx fy a b : K) (u v : Boo
           simp only [jitterFt, smearFt, pixelFt, olpfFt, Model.C15.jitterFt, Model.C15.smearFt, Model.C15.pixelFt,
             Model.C15.olpfFt, Num.ofInt, if_true, if_false, Bool.false_eq_true] <;> ring_nf)
 
+/-- the analytic transforms of the objects of `objects.py` (`slit_ft`: which widths are present decides between the sum
+of the two sinc's and one of them; `pinhole_ft`: `jinc(fr · 2π·radius)`) are the modelled formulas, over any field -/
+theorem gen_objs {K : Type} [Field K] (f : K → K) (pi fx fy a b : K) (u v : Bool) :
+    slitFt f fx fy a b u v = Model.C15.slitFt f fx fy a b u v ∧
+    pinholeFt f pi fx a = Model.C15.pinholeFt f pi fx a := by
+  refine ⟨?_, ?_⟩ <;>
+    first
+      | rfl
+      | (cases u <;> cases v <;>
+          simp only [slitFt, pinholeFt, Model.C15.slitFt, Model.C15.pinholeFt, Num.ofInt, if_true, if_false,
+            Bool.false_eq_true, Bool.and_true, Bool.and_false, Bool.true_and, Bool.false_and, Bool.not_true, Bool.not_false,
+            Bool.and_self] <;> ring_nf)
+
 /-! ## the DFT contract, from root-of-unity orthogonality -/
 
 /-- for every shape `m × n` and every pair of primitive roots of unity there is a DFT kernel with
@@ -413,6 +426,20 @@ theorem analytic_tf_even (exp sinc cos : K → K) (pi fr fx fy a b : K) (u v : B
   · simp only [Model.C15.pixelFt, neg_mul, hsinc]
   · simp only [Model.C15.olpfFt, mul_neg, hcos]
 
+/-- the analytic object transforms handed to `apply_transfer_functions` as callables: a single slit has unit DC value and a
+pair of crossed slits the value 2 (the sum of two unit slits — an object spectrum, not a normalised blur), a pinhole
+`jinc 0`; all are even in the frequency -/
+theorem object_ft_dc_even (sinc jinc : K → K) (pi fr fx fy a b : K) (u v : Bool)
+    (hsinc0 : sinc 0 = 1) (hsinc : ∀ x, sinc (-x) = sinc x) (hjinc : ∀ x, jinc (-x) = jinc x) :
+    slitFt sinc 0 0 a b u v = (if u && v then 2 else 1) ∧ pinholeFt jinc pi 0 a = jinc 0 ∧
+    slitFt sinc (-fx) (-fy) a b u v = slitFt sinc fx fy a b u v ∧ pinholeFt jinc pi (-fr) a = pinholeFt jinc pi fr a := by
+  simp only [(gen_objs sinc pi _ _ a b u v).1, (gen_objs jinc pi _ 0 a b u v).2]
+  refine ⟨?_, ?_, ?_, ?_⟩
+  · cases u <;> cases v <;> simp [Model.C15.slitFt, hsinc0] <;> norm_num
+  · simp [Model.C15.pinholeFt]
+  · cases u <;> cases v <;> simp [Model.C15.slitFt, neg_mul, hsinc]
+  · simp only [Model.C15.pinholeFt, neg_mul, hjinc]
+
 end analytic
 
 /-! ## non-vacuity: the hypotheses are met by the real thing -/
@@ -425,6 +452,10 @@ example (n : ℕ) [NeZero n] : IsPrimitiveRoot (Complex.exp (2 * Real.pi * Compl
 noncomputable example : Kernel (ZMod 5 × ZMod 8) ℂ :=
   gridKernel 5 8 _ _ (Complex.isPrimitiveRoot_exp 5 (by norm_num)).inv (Complex.isPrimitiveRoot_exp 8 (by norm_num)).inv
     (by norm_num) (by norm_num)
+
+/-- the hypotheses of `object_ft_dc_even` are met, e.g. by `sinc = jinc = 1 - x²` over ℚ -/
+example : (fun x : ℚ => 1 - x * x) 0 = 1 ∧ ∀ x : ℚ, (fun x : ℚ => 1 - x * x) (-x) = (fun x : ℚ => 1 - x * x) x :=
+  ⟨by norm_num, fun x => by ring⟩
 
 /-- the real part fixes embedded reals -/
 example (r : ℝ) : (fun z : ℂ => (z.re : ℂ)) (Complex.ofRealHom r) = Complex.ofRealHom r := cOps_re r
